@@ -639,8 +639,35 @@ def F36():
     return None
 
 
+def F37():
+    """C09/C10: disconnect() called by the application from on_pre_connect (the callback reconnect() runs just before it opens the
+    socket) is ignored: it returns MQTT_ERR_NO_CONN, reconnect() goes on to open a socket and send CONNECT, and the CONNACK
+    makes the client connected - under loop_forever() the 'final' disconnect is followed by a connection attempt."""
+    w = World()
+    c = mk_client(w, proto=4)
+    n = [0]
+
+    def pre(cl, ud):
+        n[0] += 1
+        if n[0] == 2:
+            cl.disconnect()
+    c.on_pre_connect = pre
+    connect(c, w, proto=4)
+    w.cur().feed_eof()
+    c.loop_read()                     # connection lost
+    before = len(w.socks)
+    try:
+        c.reconnect()                 # what loop_forever() does after the back-off wait
+    except Exception as e:  # noqa: BLE001
+        return f"reconnect() raised {type(e).__name__}"
+    if len(w.socks) > before:
+        return (f"disconnect() inside on_pre_connect was followed by a connection attempt (socket {len(w.socks)} opened, "
+                f"CONNECT written: {len(w.cur().wire) > 0})")
+    return None
+
+
 ALL = {"F1": F1, "F2": F2, "F3": F3, "F4": F4, "F4b": F4b, "F5": F5, "F6": F6, "F7": F7, "F8": F8, "F9": F9,
-       "F10": F10, "F19": F19, "F20": F20, "F21": F21, "F22": F22, "F23": F23, "F24": F24, "F25": F25, "F26": F26, "F29": F29, "F27": F27, "F28": F28, "F11": F11, "F12": F12, "F13": F13, "F13t": F13t, "F35": F35, "F36": F36, "F34": F34, "F33": F33, "F32": F32, "F31": F31, "F30": F30, "F15": F15, "F16": F16, "F17": F17, "F18": F18}
+       "F10": F10, "F19": F19, "F20": F20, "F21": F21, "F22": F22, "F23": F23, "F24": F24, "F25": F25, "F26": F26, "F29": F29, "F27": F27, "F28": F28, "F11": F11, "F12": F12, "F13": F13, "F13t": F13t, "F35": F35, "F36": F36, "F37": F37, "F34": F34, "F33": F33, "F32": F32, "F31": F31, "F30": F30, "F15": F15, "F16": F16, "F17": F17, "F18": F18}
 
 
 def run(name):
